@@ -1,8 +1,9 @@
 (** Executable model of the Tower middleware (middleware/tower/src/lib.rs, macro
     deal_with_sentinel!) over a resource guarded by one isolation rule of threshold [thr]:
     build an entry; if admitted call the inner service once and, when its future completes
-    (with a response or an error), exit the entry; if rejected answer with the fallback or an
-    error without calling the inner service.  A future dropped before completion never exits.
+    (with a response or an error), exit the entry; if rejected answer with the fallback's result (a response or an error) or, without
+    fallback, an error — never calling the inner service.  [fb]: 0 no fallback, 1 the fallback
+    answers with a response, 2 the fallback answers with an error.  A future dropped before completion never exits.
     Model only. *)
 From SV Require Export Model.Base.
 Open Scope N_scope.
@@ -18,14 +19,14 @@ Inductive tresp := TROkInner | TROkFallback | TRErr | TRDropped.
 (** observation of one request: inner calls made, response, in-flight afterwards, polls of the inner future *)
 Record tobs1 := mkTO { o_calls : N; o_resp : tresp; o_inflight : N; o_polls : N }.
 
-Definition tcall (thr : N) (fb : bool) (infl : N) (q : treq) : N * tobs1 :=
+Definition tcall (thr : N) (fb : N) (infl : N) (q : treq) : N * tobs1 :=
   if infl + 1 <=? thr then
     (* admitted: in flight until the inner future completes *)
     if q_drop q && is_pending (q_kind q) then (infl + 1, mkTO 1 TRDropped (infl + 1) 1)
     else (infl, mkTO 1 (if is_ok (q_kind q) then TROkInner else TRErr) infl (if is_pending (q_kind q) then 3 else 1))
-  else (infl, mkTO 0 (if fb then TROkFallback else TRErr) infl 0).
+  else (infl, mkTO 0 (if fb =? 1 then TROkFallback else TRErr) infl 0).
 
-Fixpoint trun_tower (thr : N) (fb : bool) (infl : N) (l : list treq) : list tobs1 :=
+Fixpoint trun_tower (thr : N) (fb : N) (infl : N) (l : list treq) : list tobs1 :=
   match l with
   | [] => []
   | q :: tl => let '(infl', o) := tcall thr fb infl q in o :: trun_tower thr fb infl' tl
